@@ -1240,6 +1240,9 @@ def cases_of_base(seed, i, text, per_token, rng):
     for tok in toks:
         ks = applicable(tok, toks)
         chosen = ks if per_token <= 0 else rng.sample(ks, min(per_token, len(ks)))
+        if per_token > 0 and tok["role"] in ("cellnum", "surfnum", "matnum"):
+            # the numbers that identify objects: always all number corruptions (they are few)
+            chosen = chosen + [k for k in ("negate", "zero", "deint", "dupnum") if k in ks and k not in chosen]
         for k in chosen:
             c = corrupt(text, toks, tok, k, rng)
             if c is not None:
